@@ -91,7 +91,7 @@ class C15(Property):
     self.core = lazy_core
 
   def budget(self, tier):
-    return (24000, 40.0) if tier == "quick" else (3000000, 900.0)
+    return (200000, 60.0) if tier == "quick" else (30000000, 780.0)
 
   # ---------------------------------------------------------------- workload
   def gen_workload(self, W, index):
